@@ -156,6 +156,41 @@ def once_reach(*a):
     return LAST[10] is None and len(LAST[12]) >= 1
 
 
+def again(a0, a1, a2, b0, b1, b2, p, inst):
+    """The order depends on the set of layers of *this* run only, not on what an earlier run in the same process saw: two
+    orderings in one process in which the same three names denote different layer objects with a different base relation
+    (layers made by a factory, a re-imported module)."""
+    global LAST
+    LAST = None
+    inst = cb(inst)
+    naming = pick(PERM3, p)
+    e1 = {(1, 0): cb(a0), (2, 0): cb(a1), (2, 1): cb(a2)}
+    e2 = {(1, 0): cb(b0), (2, 0): cb(b1), (2, 1): cb(b2)}
+    why = None
+    got = []
+    for which, (edges, names) in enumerate(((e1, [POOL[i] for i in range(3)]), (e2, [POOL[naming[i]] for i in range(3)]))):
+        with untraced():
+            try:
+                layers, bases = build(3, edges, names, ['w'] * 3, inst)
+            except TypeError:
+                LAST = ('mro',)
+                return True
+        got = run_order(3, layers, {0, 1, 2}, (2, 0, 1), 0, False, inst)
+        ref = run_order(3, layers, {0, 1, 2}, (0, 1, 2), 0, False, inst)
+        with untraced():
+            why = oracle(3, layers, bases, {0, 1, 2}, 0, False, got, ref)
+        if why:
+            why = 'run %d: %s' % (which + 1, why)
+            break
+    LAST = ('again', tuple(sorted(k for k, v in e1.items() if v)), tuple(sorted(k for k, v in e2.items() if v)), naming, inst, why, tuple(nm for nm, _l in got))
+    return why is None
+
+
+def again_reach(*a):
+    again(*a)
+    return LAST[0] == 'again' and LAST[5] is None and LAST[1] != LAST[2] and len(LAST[2]) >= 2
+
+
 POOL5 = ['La', 'Lb', 'Lc', 'Ld', 'Le']
 PERM5 = list(itertools.permutations(range(5)))
 INS5 = [(0, 1, 2, 3, 4), (4, 3, 2, 1, 0), (2, 4, 0, 3, 1)]
@@ -279,6 +314,13 @@ SPEC = {
          'slices': {'quick': ['p %% 8 == %d' % i for i in range(8)], 'thorough': ['p %% 8 == %d and topo == %d' % (i, t) for i in range(8) for t in (0, 1)]},
          'timeout': {'quick': 300, 'thorough': 1200},
          'fidelity': [dict(p=0, q=1, topo=0, own=0), dict(p=77, q=2, topo=1, own=1)]},
+        {'name': 'again', 'fn': 'again', 'params': [('a0', 'bool'), ('a1', 'bool'), ('a2', 'bool'), ('b0', 'bool'), ('b1', 'bool'), ('b2', 'bool'), ('p', 'int'), ('inst', 'bool')],
+         'call': 'a0, a1, a2, b0, b1, b2, p, inst',
+         'bounds': {'quick': '0 <= p < 6 and not inst', 'thorough': '0 <= p < 6'},
+         'slices': {'quick': ['p %% 2 == %d' % i for i in range(2)], 'thorough': ['p == %d' % i for i in range(6)]},
+         'reach': 'again_reach', 'reach_bounds': {'quick': '0 <= p < 6 and not inst', 'thorough': '0 <= p < 6 and not inst'},
+         'timeout': {'quick': 300, 'thorough': 850},
+         'fidelity': [dict(a0=True, a1=False, a2=True, b0=False, b1=True, b2=False, p=5, inst=False), dict(a0=False, a1=False, a2=False, b0=True, b1=True, b2=True, p=3, inst=True)]},
         {'name': 'resumed', 'fn': 'resumed', 'params': [('mode', 'int'), ('tdk', 'int')], 'call': 'mode, tdk',
          'bounds': {'quick': '0 <= mode <= 3 and 0 <= tdk <= 1', 'thorough': '0 <= mode <= 3 and 0 <= tdk <= 1'},
          'reach': 'resumed_reach',
